@@ -3,6 +3,11 @@ import Fundraising.Proofs.ExecLemmas
 import Fundraising.Proofs.Reach
 import Fundraising.Proofs.VestingLemmas
 import Fundraising.Proofs.GenesisProofs
+import Fundraising.Proofs.WFBasic
+import Fundraising.Proofs.WFCreate
+import Fundraising.Proofs.WFBid
+import Fundraising.Proofs.WFAllowed
+import Fundraising.Proofs.WFBlock
 /-
   The well-formedness invariant holds in every reachable state.
   STATEMENTS ARE FIXED (cited by every state-machine property file).
@@ -10,25 +15,118 @@ import Fundraising.Proofs.GenesisProofs
 namespace Fundraising
 
 theorem wf_init : WF ({} : Core) := by
-  sorry
+  refine ⟨⟨by decide, by decide⟩, ?_, rfl⟩
+  intro i v h
+  simp at h
 
 theorem bankNonneg_init : BankNonneg ({} : Core) := by
-  sorry
+  intro a d
+  exact Int.le_refl 0
+
+/-! ### the message server -/
+
+theorem handle_wf {c c' : Ctx} {m : Msg} (h : handle c m = .ok c')
+    (hvb : validateBasic m = true) (hw : WF c.s) :
+    WF c'.s ∧ (BankNonneg c.s → BankNonneg c'.s) := by
+  cases m with
+  | create m => exact WFInv.createAuction_wf h hvb hw
+  | cancel signer aid => exact WFInv.cancelAuction_wf h hw
+  | place bidder aid t price denom amt =>
+    cases t with
+    | none => simp only [handle, WFInv.fail_ne_ok] at h
+    | some t =>
+      simp only [validateBasic, Bool.and_eq_true, decide_eq_true_eq] at hvb
+      obtain ⟨⟨⟨⟨h1, h2⟩, _⟩, h4⟩, _⟩ := hvb
+      exact WFInv.placeBid_wf h h1 h2 h4 hw
+  | modify bidder aid bidId price denom amt =>
+    simp only [validateBasic, Bool.and_eq_true, decide_eq_true_eq] at hvb
+    obtain ⟨⟨⟨_, h2⟩, _⟩, h4⟩ := hvb
+    exact WFInv.modifyBid_wf h h2 h4 hw
+  | addAllowed aid ab =>
+    simp only [handle, WFInv.bind_ok] at h
+    obtain ⟨_, hc, h⟩ := h
+    exact WFInv.addAllowedBidders_wf h hw
+  | updateParams signer p =>
+    simp only [handle, WFInv.bind_ok, WFInv.pure_ok] at h
+    obtain ⟨_, _, _, _, _, hc, rfl⟩ := h
+    rw [check_ok_iff] at hc
+    exact ⟨WFInv.updateParams_wf hw hc, id⟩
+
+theorem deliver_wf {c c' : Ctx} {m : Msg} (h : deliver c m = .ok c') (hw : WF c.s) :
+    WF c'.s ∧ (BankNonneg c.s → BankNonneg c'.s) := by
+  unfold deliver at h
+  simp only [WFInv.bind_ok] at h
+  obtain ⟨_, hc, h⟩ := h
+  rw [check_ok_iff] at hc
+  exact handle_wf h hc hw
+
+/-! ### the step function -/
+
+theorem runAtomic_inv (st : State) (recover : Bool) (f : Ctx → M Ctx) (hw : WF st.core)
+    (hf : ∀ c', f { s := st.core, ctl := st.ctl } = .ok c' →
+      WF c'.s ∧ (BankNonneg st.core → BankNonneg c'.s)) :
+    WF (runAtomic st recover f).2.core ∧
+      (BankNonneg st.core → BankNonneg (runAtomic st recover f).2.core) := by
+  rcases runAtomic_cases st recover f with ⟨c, hc, e⟩ | ⟨e, _, h2, _⟩
+  · rw [e]; exact hf c hc
+  · rw [h2]; exact ⟨hw, id⟩
+
+theorem step_inv (st : State) (op : Op) (hw : WF st.core) :
+    WF (step st op).2.core ∧ (BankNonneg st.core → BankNonneg (step st op).2.core) := by
+  cases op with
+  | reset => exact ⟨wf_init, fun _ => bankNonneg_init⟩
+  | fund u d amt =>
+    refine ⟨⟨hw.params, hw.views, hw.switchOff⟩, ?_⟩
+    intro hn a d'
+    show 0 ≤ st.core.bank a d' + (if a = .user u ∧ d' = d ∧ 0 < amt then amt else 0)
+    have := hn a d'
+    split
+    · rename_i h; have := h.2.2; omega
+    · omega
+  | gift src dst d amt =>
+    unfold step
+    by_cases h0 : amt ≤ 0
+    · simp only [h0, if_true]; exact ⟨hw, id⟩
+    · simp only [h0, if_false]
+      cases hs : st.core.bank.sendCoins (.user src) dst [⟨d, amt⟩] with
+      | none => exact ⟨hw, id⟩
+      | some b =>
+        refine ⟨⟨hw.params, hw.views, hw.switchOff⟩, ?_⟩
+        intro hn
+        exact WFInv.sendCoins_nonneg hn (by intro x hx; simp at hx; subst hx; show (0 : Int) ≤ amt; omega) hs
+  | msg m => exact runAtomic_inv st true _ hw (fun c' h => deliver_wf h hw)
+  | kadd aid abs => exact runAtomic_inv st true _ hw (fun c' h => WFInv.addAllowedBidders_wf h hw)
+  | kupd aid u cap => exact runAtomic_inv st true _ hw (fun c' h => WFInv.updateAllowedBidder_wf h hw)
+  | block t =>
+    have hw' : WF ({ st with core := { st.core with now := t } } : State).core :=
+      ⟨hw.params, hw.views, hw.switchOff⟩
+    have r := runAtomic_inv { st with core := { st.core with now := t } } false
+      (fun c => beginBlock c t) hw' (fun c' h => WFInv.beginBlock_wf h hw')
+    exact ⟨r.1, r.2⟩
+  | genesis =>
+    unfold step
+    simp only [reimport_eq st.core hw]
+    exact ⟨hw, id⟩
+  | listeners n => exact ⟨hw, id⟩
+  | failhook name idx => exact ⟨hw, id⟩
+  | fault k => exact ⟨hw, id⟩
+  | query q => exact ⟨hw, id⟩
 
 /-- every operation — successful or not — preserves well-formedness -/
-theorem wf_step (st : State) (op : Op) (h : WF st.core) : WF (step st op).2.core := by
-  sorry
+theorem wf_step (st : State) (op : Op) (h : WF st.core) : WF (step st op).2.core :=
+  (step_inv st op h).1
 
-/-- no operation makes a balance negative -/
-theorem bankNonneg_step (st : State) (op : Op) (h : BankNonneg st.core) :
-    BankNonneg (step st op).2.core := by
-  sorry
+/-- no operation makes a balance negative (in a well-formed state: the fee coins of
+    `Params` must be valid, which `WF` records) -/
+theorem bankNonneg_step (st : State) (op : Op) (h : BankNonneg st.core) (hw : WF st.core) :
+    BankNonneg (step st op).2.core :=
+  (step_inv st op hw).2 h
 
 theorem wf_reach (st : State) (h : Reach st) : WF st.core :=
   reach_induction (P := fun st => WF st.core) wf_init (fun st op _ ih => wf_step st op ih) st h
 
 theorem bankNonneg_reach (st : State) (h : Reach st) : BankNonneg st.core :=
-  reach_induction (P := fun st => BankNonneg st.core) bankNonneg_init
-    (fun st op _ ih => bankNonneg_step st op ih) st h
+  (reach_induction (P := fun st => WF st.core ∧ BankNonneg st.core) ⟨wf_init, bankNonneg_init⟩
+    (fun st op _ ih => ⟨wf_step st op ih.1, bankNonneg_step st op ih.2 ih.1⟩) st h).2
 
 end Fundraising
